@@ -255,7 +255,7 @@ KINDS = "bcyi"
 
 
 def gen_run(rng):
-    """<sample_count> <sample_size|t> <threads> <opt/pre/inp/- kinds> <alloc> <seed>"""
+    """<sample_count> <sample_size|t> <threads> <opt/pre/inp/post kinds> <alloc> <seed>"""
     def subset(p):
         return "".join(k for k in KINDS if rng.random() < p) or "-"
     k = rng.random()
@@ -270,9 +270,12 @@ def gen_run(rng):
             inp = "".join(sorted({kind, other}, key=KINDS.index))
             if rng.random() < 0.5:
                 opt = "".join(sorted(set(opt.replace("-", "")) | {other}, key=KINDS.index)) or "-"
-        spec = f"{opt}/{pre}/{inp}/-"
+        post = "-"
+        if rng.random() < 0.3:       # Bencher::counter AFTER input_counter: same kind, another kind, or both
+            post = rng.choice([kind, other, "".join(sorted({kind, other}, key=KINDS.index))])
+        spec = f"{opt}/{pre}/{inp}/{post}"
     else:
-        spec = f"{subset(0.25)}/{subset(0.25)}/{subset(0.3)}/-"
+        spec = f"{subset(0.25)}/{subset(0.25)}/{subset(0.3)}/{subset(0.15)}"
     size = "t" if rng.random() < 0.2 else str(rng.choice([0, 1, 1, 2, 3, 8]))
     count = rng.choice([0, 1, 2, 3, 4, 5, 8, 20]) if size != "t" else rng.choice([1, 2, 3, 5])
     return f"{count} {size} {rng.choice([1, 1, 2, 3])} {spec} {rng.randrange(2)} {rng.randrange(1000)}"
@@ -329,7 +332,8 @@ def streams(tier, rng):
     runs = corpus_cases("C05-run")
     for kind in KINDS:     # constant of kind K (options / Bencher::counter) overridden by input_counter(K), explicit and tuned size
         runs += [f"3 2 1 {kind}/-/{kind}/- 0 7", f"3 2 1 -/{kind}/{kind}/- 0 7", f"4 1 2 {kind}/{kind}/{kind}/- 1 5",
-                 f"2 t 1 {kind}/-/{kind}/- 0 3"]
+                 f"2 t 1 {kind}/-/{kind}/- 0 3", f"3 2 1 -/-/{kind}/{kind} 0 7", f"2 t 1 -/-/{kind}/{kind} 0 3",
+                 f"4 1 2 {kind}/-/bi/{kind} 1 5"]
     runs += ["0 2 1 -/-/-/- 0 1", "2 0 1 -/-/b/- 1 3", "1 1 1 -/-/-/- 0 1", "3 2 1 -/-/b/- 1 7", "4 1 2 -/c/i/- 1 5",
              "5 3 1 -/i/-/- 0 9", "2 1 3 bc/y/bi/- 1 4", "0 2 1 i/-/i/- 0 1", "3 3 1 bi/ci/bci/- 1 11"]
     while len(runs) < (160 if quick else 3000):
@@ -353,9 +357,11 @@ def streams(tier, rng):
         Stream("real-runs-debug", "run", runs, compare=compare_run, model_input=mi,
                nontrivial=lambda c, m: m.startswith("IN ") and len(m.split(" ")) > 2 and m.split(" ")[2].count(",") >= 1,
                describe="real Bencher runs (sample_count, explicit or tuned sample_size, threads 1..3, constant counters from the "
-                        "options and from Bencher::counter combined with input_counter of the same and of other kinds, "
+                        "options and from Bencher::counter (before and after input_counter) combined with input_counter of the same "
+                        "and of other kinds, "
                         "allocating or not, AllocProfiler installed): the stored per-input counts must be one per recorded "
-                        "sample with that sample's own value (the harness knows the inputs it generated), and compute_stats "
+                        "sample with that sample's own value (the harness knows the inputs it generated), a kind whose last word "
+                        "was a constant stores exactly that constant and is not per-input, and compute_stats "
                         "on what the run recorded; model driven by the recording"),
         Stream("real-runs-release", "run_rel", runs[: len(runs) // 2], compare=compare_run, model_input=mi, release=True,
                nontrivial=lambda c, m: m.startswith("IN ") and len(m.split(" ")) > 2 and m.split(" ")[2].count(",") >= 1),
